@@ -26,7 +26,16 @@ SIGNALS = [
     ("POOL_ctx_s", "shutdown", "any", "queuePushCond", {"POOL_create_advanced"}, "shutdown wakes pushers"),
     ("POOL_ctx_s", "shutdown", "any", "queuePopCond", {"POOL_create_advanced"}, "shutdown wakes workers"),
     ("POOL_ctx_s", "threadLimit", "any", "queuePopCond", {"POOL_create_advanced"}, "resize wakes workers"),
+    ("POOL_ctx_s", "threadLimit", "any", "queuePushCond", {"POOL_create_advanced"}, "a larger limit is room for a blocked POOL_add (isQueueFull reads threadLimit)"),
 ]
+# wait-predicate fields that need no wake-up row, each confirmed by reading
+WAKE_EXEMPT = {
+    ("queueEmpty", "queuePushCond"): "set together with queueHead on dequeue (row queueHead); cleared on enqueue, which cannot satisfy a poster or a joiner",
+    ("queueTail", "queuePushCond"): "enqueue only fills the queue: it cannot make room nor complete a join",
+    ("queueEmpty", "queuePopCond"): "cleared together with queueTail on enqueue (row queueTail); set on dequeue, which cannot satisfy a worker",
+    ("numThreadsBusy", "queuePopCond"): "the worker that decrements it re-tests its own predicate at the top of its loop before it can sleep",
+    ("queueHead", "queuePopCond"): "dequeue only empties the queue",
+}
 
 AIO_MUTEX = ("IOPoolCtx_t", "ioJobsMutex")
 AIO_GUARDED = {("IOPoolCtx_t", "availableJobs"): AIO_MUTEX, ("IOPoolCtx_t", "availableJobsCount"): AIO_MUTEX,
@@ -74,6 +83,9 @@ def run(tier):
     locks.pairing(la, res, "T2.pairing")
     nw = locks.waits(la, GUARDED, res, "T2.wait-loop", reader_summaries={"isQueueFull": 1})
     locks.must_signal(la, res, "T2.must-signal", SIGNALS)
+    locks.wake_discipline(prog, res, "T2.wake-discipline", [f for f in prog.all_functions() if f.file.endswith("common/pool.c")],
+                          {k for k, v in GUARDED.items() if v == POOL_MUTEX}, SIGNALS, WAKE_EXEMPT)
+    res.need("T2.wake-discipline", 9)
     res.need("T2.wait-loop", 3)
     res.need("T2.pairing", 6)
     res.need("T2.must-signal", 7)
